@@ -28,7 +28,7 @@ from .. import gens, refs
 from . import probes
 from .common import L
 
-KINDS = ["inttype", "inttype_mixed", "long", "drift", "identity", "chain"]
+KINDS = ["inttype", "inttype_mixed", "long", "drift", "identity", "chain", "layout"]
 POSES = ["SO2", "SE2", "SO3", "SE3"]
 
 CLASSES_BY_PROP = dict(probes.CLASSES_BY_PROP)
@@ -171,12 +171,39 @@ def cells(pid):
                            "aux": aux, "n": n}
 
 
+LAYOUTS = ["column-major", "transposed-view", "strided-view", "negative-strides"]
+
+
+def relayout(A, lay):
+    """an array equal to A (same shape, same values, float64) held differently in memory"""
+    A = np.asarray(A, dtype=float)
+    if A.ndim != 2:
+        if lay == "strided-view":
+            big = np.zeros(2 * A.shape[0])
+            big[::2] = A
+            return big[::2]
+        if lay == "negative-strides":
+            return np.array(A[::-1], copy=True)[::-1]
+        return A.copy()
+    if lay == "column-major":
+        return np.asfortranarray(A.copy())
+    if lay == "transposed-view":
+        return np.ascontiguousarray(A.T).T
+    if lay == "strided-view":
+        big = np.full((2 * A.shape[0] + 1, 3 * A.shape[1]), 9.75)
+        big[1::2, ::3][:A.shape[0], :A.shape[1]] = A
+        return big[1::2, ::3][:A.shape[0], :A.shape[1]]
+    B = np.array(A[::-1, ::-1], order="C", copy=True)
+    return B[::-1, ::-1]
+
+
 def _mk(cn, vals, **kw):
     cls = getattr(L, cn)
+    keep = kw.pop("keep", False)      # keep: hand the arrays over as they are (memory layout is the point)
     try:
-        return cls([np.array(v) for v in vals], check=False, **kw)
+        return cls([v if keep else np.array(v) for v in vals], check=False, **kw)
     except TypeError:
-        return cls([np.array(v) for v in vals], **kw)
+        return cls([v if keep else np.array(v) for v in vals], **kw)
 
 
 def elem_of(s, i, n):
@@ -233,6 +260,29 @@ def check(c, case, pid):
                 of, _ = probes.outcome(f, Xf, P, aux)
                 if not same_mod_turn(name, oi, of, 1e-12):
                     c.fail("%s/inttype_first" % name, "%s.%s on [integer-typed, float, float] values gives %s, all-float gives %s" % (cn, name, probes._short(oi), probes._short(of)), call=name)
+    elif what == "layout":
+        # the same numbers held column-major (what X.inv().A of a rotation, a transposed copy, MATLAB data are), as a
+        # strided view of a larger array, or with negative strides: every call must answer as for the row-major copy
+        if cn not in POSES:
+            return
+        vals = [np.array(probes.value(cn, u), dtype=float) for u in case["us"][:3]]
+        for lay in LAYOUTS:
+            held = [relayout(v, lay) for v in vals]
+            for m in (1, 3):
+                Xl = _mk(cn, [relayout(v, lay) for v in vals[:m]], keep=True)
+                Xc = _mk(cn, [np.array(v, order="C", copy=True) for v in vals[:m]])
+                for name, tags, f in cat:
+                    ol, _ = probes.outcome(f, Xl, P, aux)
+                    oc, _ = probes.outcome(f, Xc, P, aux)
+                    if not same_mod_turn(name, ol, oc, 1e-12):
+                        c.fail("%s/layout" % name, "%s.%s on %s matrices gives %s, on row-major copies of the same values %s" % (cn, name, lay, probes._short(ol), probes._short(oc)), call=name, m=m, layout=lay)
+            for name, tags, f in base_calls(cn):
+                if pid not in tags and pid != "C17":
+                    continue
+                ol, _ = probes.outcome(f, relayout(vals[0], lay))
+                oc, _ = probes.outcome(f, np.array(vals[0], order="C", copy=True))
+                if not same_mod_turn(name, ol, oc, 1e-12):
+                    c.fail("base.%s/layout" % name, "base.%s of a %s matrix gives %s, of a row-major copy %s" % (name, lay, probes._short(ol), probes._short(oc)), call=name, layout=lay)
     elif what == "long":
         n = case["n"]
         vals = [probes.value(cn, u) for u in case["us"]]
